@@ -128,6 +128,17 @@ def main(tier: str) -> int:
             modified = not np.array_equal(X, X0)
             y2 = np.asarray(cls()(X0.copy()), dtype=np.float64)
             rows = [float(np.asarray(cls()(X0[i:i + 1].copy()))[0]) for i in range(len(X0))]
+            # a result handed out earlier is the caller's: later calls of the same object (same, fewer or single rows) leave it alone
+            inst = cls()
+            held = inst(X0.copy())
+            held_copy = np.array(held, dtype=np.float64, copy=True)
+            inst(X0[::-1].copy() * 0.5)
+            inst(X0[:1].copy() + 1.0)
+            gathered = np.concatenate([np.atleast_1d(inst(X0[i:i + 1].copy())) for i in range(len(X0))])
+            if not np.array_equal(np.asarray(held, dtype=np.float64), held_copy, equal_nan=True) or not np.allclose(gathered, rows, rtol=1e-12, atol=0, equal_nan=True):
+                chk.fail("a value returned earlier by a benchmark function was changed by a later call of the same object",
+                         {**{"function": name, "D": D}, "held_before": held_copy[:3].tolist(), "held_after": np.asarray(held, dtype=np.float64)[:3].tolist(),
+                          "gathered_row_results": gathered[:3].tolist(), "rows": rows[:3]}, {"problem": name, "clause": "aliased_result"})
             chk.count("basic_" + name)
             chk.case(("basic", name, D, tuple(map(tuple, X0))))
             d = {"function": name, "D": D}
